@@ -42,9 +42,11 @@ def tiled(enc: "seq[ref:Value]", cursor: "int", names: "seq[str]") -> "bool":
 
 
 @pure
-def leafy(enc: "seq[ref:Value]", unroll: "bool") -> "bool":
-    """every piece is a scalar leaf (numeric or enum); a whole array is a piece only when arrays are not unrolled"""
-    return forall(0, len(enc), lambda k: leaf_type(enc[k].type) or (not unroll and isinstance(enc[k].type, ArrayType)))
+def leafy(fcp: "ref:FcpV2", enc: "seq[ref:Value]", unroll: "bool") -> "bool":
+    """every piece is a scalar leaf (numeric or enum) - a whole array is a piece only when arrays are not unrolled - and is
+    exactly as wide as the wire image of its type"""
+    return forall(0, len(enc), lambda k: (leaf_type(enc[k].type) or (not unroll and isinstance(enc[k].type, ArrayType)))
+                  and enc[k].bitlength == type_width(fcp, enc[k].type))
 
 
 # ---- leaf names / widths of one field, of the first k fields of a struct, of the first k unrolled array elements
